@@ -71,6 +71,8 @@ pub enum Op {
     StrayCallback { seq: u64, outcome: u8, foreign_channel: bool },
     Breaker { sender: P },
     Resume { sender: P, consistent: bool },
+    /// admin override that re-bases only the staked total (LST and reward totals are passed unchanged)
+    ResumeStaked { sender: P },
     Donate { denom: Funds },
     AddValidator { sender: P, which: u8 },
     RemoveValidator { sender: P, which: u8 },
@@ -96,6 +98,7 @@ impl Op {
             | Op::FeeWithdraw { sender }
             | Op::Breaker { sender }
             | Op::Resume { sender, .. }
+            | Op::ResumeStaked { sender }
             | Op::AddValidator { sender, .. }
             | Op::RemoveValidator { sender, .. }
             | Op::TransferOwnership { sender }
@@ -246,6 +249,21 @@ pub fn run(b: &mut Built, op: &Op, pfx: &str, env: Envelope) -> StepOut {
                 (n, l, r)
             };
             b.chain.execute(&s, &[], ExecuteMsg::ResumeContract { total_native_token: n, total_liquid_stake_token: l, total_reward_amount: r })
+        }
+        Op::ResumeStaked { sender } => {
+            let s = who_addr(&who, sender);
+            let st = staking::state::STATE.load(&b.chain.deps.storage).unwrap();
+            let n = input("rn", true);
+            if env == Envelope::C16 {
+                let (nt, lt) = (t::ut(n), t::ut(st.total_liquid_stake_token));
+                symcore::assume(t::implies(&t::gt(&lt, "0"), &t::and(&[t::le(&nt, &t::mul("1000", &lt)), t::le(&lt, &t::mul("1000", &nt))])));
+            }
+            let r = b.chain.execute(&s, &[], ExecuteMsg::ResumeContract { total_native_token: n, total_liquid_stake_token: st.total_liquid_stake_token, total_reward_amount: st.total_reward_amount });
+            if r.is_ok() {
+                // the admin asserts that the staker holds the new total: re-base the forwarding ghost (I1)
+                b.ghost.delivered = t::add(&b.ghost.delivered, &t::sub(&t::ut(n), &pre.n));
+            }
+            r
         }
         Op::Donate { denom } => {
             let d = input("don", true);
@@ -995,6 +1013,14 @@ pub fn post_op(cx: &Ctx, b: &Built, op: &Op, s: &StepOut) {
                 prove_same(f, "C10:resume leaves the fee balance alone", &[(&post.fees, &pre.fees)]);
                 claim(f, "C10:resume leaves the ownership fields alone", post.pending_owner == pre.pending_owner && post.min_time == pre.min_time && post.admin == pre.admin);
                 claim(f, "C10:resume emits only the oracle post", msgs.len() == posts(msgs).len());
+                check_oracle(cx, s, msgs, true);
+            }
+        }
+        Op::ResumeStaked { sender } => {
+            if s.tx.is_ok() {
+                claim(f, "C08:resume only for the admin", *sender == P::Admin);
+                prove(f, "C10:resume sets the staked total to exactly the supplied value", t::eq(&post.n, &input("rn")));
+                prove_same(f, "C10:resume keeps the totals it was given unchanged", &[(&post.l, &pre.l), (&post.rewards, &pre.rewards), (&post.fees, &pre.fees)]);
                 check_oracle(cx, s, msgs, true);
             }
         }
